@@ -109,6 +109,44 @@ CLAIMED = {
         "technique": "Coq closed-form induction over run count + generated structural facts + measured-count correspondence",
         "design": "DESIGN.md section 6, C18",
     },
+    "C06": {
+        "text": "Theorems over a trace model (the Pipeline.v executor threaded with a driver state Closed | Open buffered flushed, a clock oracle and digests for any hash H; the protected-region structure "
+                "is a record of facts read from orchestrator.py / jsonl.py): for every pipeline, payload, failure point and failure kind the emitted stream is pipeline_start, one SER per started node in "
+                "execution order with linear upstream edges and statuses succeeded* error?, exactly one pipeline_end whose status is ok iff the run returned, every record schema_ok (schema tables generated "
+                "from trace/schema/*.json); the original outcome is unchanged and the driver ends Closed with everything flushed. The facts needed (instantiate inside try, BaseException handlers) have hard "
+                "obligations after the fix commits; refuted_when witnesses are kept. Closed under the global context. Every generated pipeline x failure index x 7 failure kinds x detail levels x file/directory "
+                "output is traced for real, validated with jsonschema and compared with the model's record skeleton.",
+        "note": "Model coq/Model/Trace.v; OS-level durability of the flushed file is not modelled (two-state handle); a failing node that changed the context before raising is checked by the direct oracles only.",
+        "technique": "Coq proof over all failure points + generated structural facts and schema tables + differential trace correspondence",
+        "design": "DESIGN.md section 6, C06",
+    },
+    "C07": {
+        "text": "Theorems over the same trace model: every SER is ser_of the real pre/post states of its node (created/updated keys = the actual context difference, checks PASS iff their condition), "
+                "parameters and parameter_sources report the value and channel actually used (conditional fact, hard obligation after the fix), output digest of node k = input digest of node k+1 and equal "
+                "content gives equal digests for every H, timestamps denote the UTC instant for every zone offset (hard obligation after the fix), durations non-negative and stamps monotone under a monotone "
+                "clock oracle. Closed under the global context. Each SER of real runs is compared with the harness's own execution log; TZ sweep in subprocesses (UTC, +09:00, -08:00, +05:45).",
+        "note": "Model coq/Model/Trace.v; a wall clock that steps backwards and in-place mutation of context values shared with the snapshot are outside the model (named assumption mono).",
+        "technique": "Coq proof (record-vs-run relations, clock oracle) + generated facts + differential correspondence against the harness execution log",
+        "design": "DESIGN.md section 6, C07",
+    },
+    "C10": {
+        "text": "Theorems over the same trace model: the outcome of a traced run equals the outcome of the untraced run at every detail level (including the trace-side JSON serialisation that can raise; "
+                "conditional fact with hard obligation after the fix), and normalised traces are equal for all run ids, sequence counters, clocks, zones and prior traced runs of the same object. "
+                "Closed under the global context. Each case is run untraced, traced at every detail level, and twice after a random history of other pipelines; normalised traces are compared.",
+        "note": "Model coq/Model/Trace.v; user data types whose __len__/__repr__ have side effects are outside the model.",
+        "technique": "Coq proof (transparency and reproducibility over histories) + probed facts + paired-run correspondence",
+        "design": "DESIGN.md section 6, C10",
+    },
+    "C15": {
+        "text": "Theorems over a model of the queue orchestrator on the abstract transport justified by C14 (actors: enqueue, master dequeue/poll, worker take/finish; any number of jobs and workers; schedules are "
+                "arbitrary actor lists): every enqueued job is in exactly one place (no loss, no duplication), a future that is Done holds its own job's annotated outcome, a future is set at most once and never "
+                "changes again, a strictly decreasing measure bounds the enabled steps and at quiescence every future is resolved (liveness under a fair scheduler, labelled so), a failing job fails its future "
+                "(conditional fact with hard obligation after the fix). Closed under the global context. Real master + 1..4 worker threads on batches of distinct jobs with randomised switch intervals, a failing job "
+                "at every position, plus a gate-based deterministic explorer; every run's model-level event trace is replayed in Coq and every future compared with the model and with direct execution.",
+        "note": "Model coq/Model/JobQueue.v over the abstract transport (atomic publish/pop: justified by the C14 theorems); real-time behaviour of the 0.2 s polling and interleavings finer than a transport operation are covered by the randomised runs only.",
+        "technique": "Coq invariant proofs over all schedules + generated facts + trace validation of real threaded runs",
+        "design": "DESIGN.md section 6, C15",
+    },
     "C08": {
         "text": "Theorems over an executable model of expand_run_space: sorted-key order, mixed-radix characterisation of the Cartesian product (last key fastest), by_position alignment, "
                 "block and combine characterisations, every run carries exactly the union of keys, every documented rejection, cap rejection (unconditional now that the no-blocks cap "
